@@ -15,6 +15,8 @@ use std::borrow::Borrow;
 
 pub use balance::Balance;
 pub use book_keeping::{process, ProcessOptions};
+#[cfg(okane_verif)]
+pub use book_keeping::BookKeepError;
 pub use commodity::{Commodity, OwnedCommodity};
 pub use context::{Account, ReportContext};
 pub use error::ReportError;
